@@ -110,55 +110,6 @@ Definition spec_check (ops : list op) (d : dmg) (o : obs) : bool :=
   && rec_ok vp (o_rec o) && rec_ok (by_fid 0 vp) (o_rec0 o) && rec_ok (by_fid 1 vp) (o_rec1 o).
 
 (* ---------------------------------------------------------------- finding classes *)
-(* counters of the writer: OS cursor, logical offset, frames in the BufWriter, file length (frames) *)
-Record trk := Trk { t_cur : nat; t_off : nat; t_pend : nat; t_flen : nat; t_sync : bool; t_why : Z }.
-
-Definition trk_flush (t : trk) : trk :=
-  match t_pend t with
-  | O => t
-  | _ => Trk (t_cur t + t_pend t) (t_off t) 0 (Nat.max (t_flen t) (t_cur t + t_pend t)) (t_sync t) (t_why t)
-  end.
-Definition trk_write (t : trk) (n : nat) (do_sync : bool) : trk :=
-  let t1 := Trk (t_cur t) (t_off t + n) (t_pend t + n) (t_flen t) (t_sync t) (t_why t) in
-  if do_sync then trk_flush t1 else t1.
-
-Definition op_frames (o : op) : nat :=
-  match o with OWrite _ => 1%nat | OBatch fs _ => length fs | _ => O end.
-
-(* class raised by executing o in counter state t (0 = none):
-   1  a frame is written while the OS cursor is not at the logical offset, after Wal::open of a
-      non-empty segment (open seeks to 0 but sets offset = len): earlier frames are overwritten;
-   2  the same after truncate (set_len(0) leaves the cursor where it was): a hole of zeros;
-   3  truncate while frames sit in the BufWriter (set_len(0) runs before the flush): the
-      truncated frames come back. *)
-Definition op_class (t : trk) (o : op) : Z :=
-  match o with
-  | OTruncate => if (0 <? t_pend t)%nat then 3 else 0
-  | _ => if (0 <? op_frames o)%nat && negb (t_cur t + t_pend t =? t_off t)%nat
-         then (if t_why t =? 2 then 2 else 1) else 0
-  end.
-
-Definition trk_step (t : trk) (o : op) : trk :=
-  match o with
-  | OWrite _ => trk_write t 1 (t_sync t)
-  | OBatch fs nosync => trk_write t (length fs) (negb nosync && t_sync t && negb (is_nil fs))
-  | OSetSync b => Trk (t_cur t) (t_off t) (t_pend t) (t_flen t) b (t_why t)
-  | OSync => trk_flush t
-  | ORotate => Trk 0 0 0 0 (t_sync t) 0
-  | OTruncate => Trk (t_cur t) 0 (t_pend t) 0 (t_sync t) (if (t_cur t =? 0)%nat then t_why t else 2)
-  | OReopen =>
-      let t1 := trk_flush t in
-      Trk 0 (t_flen t1) 0 (t_flen t1) true (if (t_flen t1 =? 0)%nat then t_why t1 else 1)
-  end.
-
-Fixpoint known_from (t : trk) (ops : list op) : Z :=
-  match ops with
-  | [] => 0
-  | o :: r => if op_class t o =? 0 then known_from (trk_step t o) r else op_class t o
-  end.
-Definition trk0 : trk := Trk 0 0 0 0 true 0.
-Definition known_ops (ops : list op) : Z := known_from trk0 ops.
-
 Definition nonempty_after (i : nat) (log : list (list frame)) : bool :=
   existsb (fun g => negb (is_nil g)) (skipn (S i) log).
 
@@ -172,11 +123,21 @@ Definition first_hit_zeroed (n : nat) (d : dmg) : bool :=
   | _ => false
   end.
 
-(*  4  a fault invalidates a frame of a segment that is not the last one and a later segment
-       holds frames: recover stops in that segment but goes on with the next ones;
-    6  the first frame the fault destroys is overwritten with zeros entirely: an all-zero slot
+(* a cut exactly at a frame boundary leaves a file that ends cleanly *)
+Definition clean_cut (n : nat) (d : dmg) : bool :=
+  match d with
+  | DCut _ off => (0 <=? off) && (off <=? FRAME * Z.of_nat n) && (off mod FRAME =? 0)
+  | _ => false
+  end.
+
+(*  6  the first frame the fault destroys is overwritten with zeros entirely: an all-zero slot
        passes validate_checksum (CRC-64/ECMA-182 of zeros is 0), so it is replayed as a frame
-       for page 0 of file 0 and the scan goes on behind it. *)
+       for page 0 of file 0 and the scan goes on behind it;
+    7  a segment that is not the last one is cut exactly at a frame boundary and a later segment
+       holds frames: nothing in the files shows that frames are missing (no sequence numbers,
+       no segment trailer), so the later segments are replayed behind the gap.
+   (Classes 1-5 of the first version of this check were repaired in /repo by commits 3b478c2,
+   68f3fa5 and 8009d11.) *)
 Definition dmg_class (log : list (list frame)) (d : dmg) : Z :=
   match dmg_seg d with
   | None => 0
@@ -186,26 +147,14 @@ Definition dmg_class (log : list (list frame)) (d : dmg) : Z :=
         | None => 0
         | Some seg =>
             if (intact (length seg) d <? length seg)%nat then
-              if nonempty_after (Z.to_nat s) log then 4
-              else if first_hit_zeroed (length seg) d then 6 else 0
+              if first_hit_zeroed (length seg) d then 6
+              else if clean_cut (length seg) d && nonempty_after (Z.to_nat s) log then 7 else 0
             else 0
         end
       else 0
   end.
 
-(*  5  Wal::open indexes only the latest segment: after reopening, read_page does not find
-       pages whose last valid image lives in an older segment. *)
-Definition frames_before_last (log : list (list frame)) : nat := length (concat (removelast log)).
-Definition read_class (log : list (list frame)) (vp : list frame) : Z :=
-  if (1 <? length log)%nat
-     && negb (rds_eqb (expect_reads (skipn (frames_before_last log) vp) read_keys) (expect_reads vp read_keys))
-  then 5 else 0.
-
-Definition known_case (ops : list op) (d : dmg) : Z :=
-  let log := log_of ops in
-  if negb (known_ops ops =? 0) then known_ops ops
-  else if negb (dmg_class log d =? 0) then dmg_class log d
-  else read_class log (valid_prefix log d).
+Definition known_case (ops : list op) (d : dmg) : Z := dmg_class (log_of ops) d.
 
 (* the frames the API accepts: u32 page numbers below u32::MAX (page_no + 1 must not overflow) *)
 Definition frame_ok (f : frame) : bool := (0 <=? f_page f) && (f_page f <? U32_MAX) && (0 <=? f_dbs f).
